@@ -144,6 +144,7 @@ func propC02(w *World, r *Report) {
 	}
 	RunBoundsControls(r)
 	RunLoopControls(r)
+	RunAllocControls(r)
 	r.Conds["charstring-budget"] = condGlobalBudget(w, "(*cff.decodeInfo).decodeCharString")
 	r.Conds["format12-budget"] = condExpansionBudget(w, "cmap.decodeFormat12")
 	r.Conds["glyphheight-guarded"] = func() (bool, string) {
